@@ -19,7 +19,7 @@ type SpecEnv struct {
 	st      *State
 	old     *SpecEnv
 	frame   *Frame // locals of this frame are visible by source name
-	wmPre   *Term
+	wmPre   *WMs
 	loopHdr *ssa.BasicBlock
 	depth   int
 }
@@ -382,6 +382,12 @@ func (ex *Exec) evalSpec(env *SpecEnv, e *SExpr) Val {
 		ne := env.child()
 		var bvs []*Term
 		var guards []*Term
+		// a two-state body (mentions old(...)) talks about objects that exist in both states: its reference variables
+		// range over what was allocated in the old state; otherwise over what is allocated now
+		wmQ := env.st.wm
+		if env.old != nil && env.old.st != nil && ex.mentionsOld(env.pkgPath, e.Args[0], map[*SpecFunc]bool{}) {
+			wmQ = env.old.st.wm
+		}
 		for _, v := range e.Vars {
 			t := ex.resolveType(ne, v.Type)
 			ls := Layout(t)
@@ -391,11 +397,36 @@ func (ex *Exec) evalSpec(env *SpecEnv, e *SExpr) Val {
 				bt := Bound(fmt.Sprintf("%s%s_%d", sanitize(v.Name), sanitize(l.Path), ex.boundN), l.Sort)
 				val.L[i] = bt
 				bvs = append(bvs, bt)
+				// a quantified reference ranges over the objects allocated in the state the quantifier is evaluated in
+				// (nil included); unallocated ids are not objects, and what the heaps hold there means nothing
+				switch {
+				case strings.HasSuffix(l.Path, "#arr"):
+					guards = append(guards, Ge(bt, Int(0)))
+					if l.Ref != "" {
+						guards = append(guards, Le(bt, ex.wmGet(wmQ, l.Ref)))
+					}
+				case strings.HasSuffix(l.Path, "#off"), strings.HasSuffix(l.Path, "#len"):
+					guards = append(guards, Ge(bt, Int(0)))
+				case l.T != nil:
+					switch types.Unalias(l.T).Underlying().(type) {
+					case *types.Pointer, *types.Map:
+						guards = append(guards, Ge(bt, Int(0)))
+						if l.Ref != "" {
+							guards = append(guards, Le(bt, ex.wmGet(wmQ, l.Ref)))
+						}
+					}
+				}
 			}
 			ne.vars[v.Name] = val
-			_ = guards
 		}
 		body := ex.evalSpec(ne, e.Args[0]).S()
+		if len(guards) > 0 {
+			if e.Op == "forall" {
+				body = Implies(And(guards...), body)
+			} else {
+				body = And(And(guards...), body)
+			}
+		}
 		var pats [][]*Term
 		for _, p := range e.Pats {
 			var pt []*Term
@@ -425,6 +456,37 @@ func (ex *Exec) evalSpec(env *SpecEnv, e *SExpr) Val {
 	}
 	sfail("cannot evaluate %s", e)
 	return Val{}
+}
+
+// mentionsOld: does the expression (looking through spec function macros) use old(...)?
+func (ex *Exec) mentionsOld(pkgPath string, e *SExpr, seen map[*SpecFunc]bool) bool {
+	if e == nil {
+		return false
+	}
+	if e.Op == "call" && len(e.Args) > 0 && e.Args[0].Op == "id" {
+		if e.Args[0].Name == "old" {
+			return true
+		}
+		if sf := ex.eng.findSpecFunc(pkgPath, e.Args[0].Name); sf != nil && sf.Body != nil && !seen[sf] {
+			seen[sf] = true
+			if ex.mentionsOld(sf.PkgPath, sf.Body, seen) {
+				return true
+			}
+		}
+	}
+	for _, a := range e.Args {
+		if ex.mentionsOld(pkgPath, a, seen) {
+			return true
+		}
+	}
+	for _, ps := range e.Pats {
+		for _, p := range ps {
+			if ex.mentionsOld(pkgPath, p, seen) {
+				return true
+			}
+		}
+	}
+	return false
 }
 
 func (ex *Exec) evalIdent(env *SpecEnv, name string) Val {
@@ -792,15 +854,29 @@ func (ex *Exec) evalCall(env *SpecEnv, e *SExpr) Val {
 			if env.wmPre == nil {
 				sfail("fresh() outside a postcondition")
 			}
-			return bval(And(Gt(v.L[0], env.wmPre), Le(v.L[0], env.st.wm)))
+			if a := args[0]; a.Op == "call" && len(a.Args) == 2 && a.Args[0].Op == "id" && a.Args[0].Name == "arr" {
+				v = ex.evalSpec(env, a.Args[1]) // fresh(arr(s)): the backing array of slice s
+			}
+			key := refKeyOf(v.T)
+			if key == "" {
+				sfail("fresh(): %v is not a reference into a modelled heap", v.T)
+			}
+			return bval(And(Gt(v.L[0], ex.wmGet(env.wmPre, key)), Le(v.L[0], ex.wmGet(env.st.wm, key))))
 		case "allocated":
 			// allocated(x): x existed at function entry (or in the pre-state of the call)
 			v := ev(0)
+			if a := args[0]; a.Op == "call" && len(a.Args) == 2 && a.Args[0].Op == "id" && a.Args[0].Name == "arr" {
+				v = ex.evalSpec(env, a.Args[1])
+			}
 			wm := env.st.wm
 			if env.old != nil {
 				wm = env.old.st.wm
 			}
-			return bval(And(Gt(v.L[0], Int(0)), Le(v.L[0], wm)))
+			key := refKeyOf(v.T)
+			if key == "" {
+				sfail("allocated(): %v is not a reference into a modelled heap", v.T)
+			}
+			return bval(And(Gt(v.L[0], Int(0)), Le(v.L[0], ex.wmGet(wm, key))))
 		case "int", "int64", "int32", "uint64", "uint32", "uint":
 			v := ev(0)
 			t := ex.resolveType(env, fnE.Name)
@@ -815,6 +891,38 @@ func (ex *Exec) evalCall(env *SpecEnv, e *SExpr) Val {
 		case "seenkey":
 			sv := ex.rangeSeen(env)
 			return bval(Select(sv.L[0], ev(0).L[0]))
+		case "lastresult":
+			// lastresult("Callee") / lastresult("Callee", i): (i-th) result of the latest call to a matching callee
+			if args[0].Op != "str" {
+				sfail("lastresult(): string literal expected")
+			}
+			c := ex.resCells[args[0].Name]
+			if c == nil {
+				sfail("lastresult(%q): not registered", args[0].Name)
+			}
+			v, ok := env.st.cells[c]
+			if !ok || c.T == nil {
+				sfail("lastresult(%q): no call to a matching callee precedes this point on any path", args[0].Name)
+			}
+			if tt, isT := c.T.(*types.Tuple); isT {
+				idx := 0
+				if len(args) > 1 {
+					if args[1].Op != "int" {
+						sfail("lastresult(): literal index expected")
+					}
+					fmt.Sscanf(args[1].Name, "%d", &idx)
+				}
+				if idx >= tt.Len() {
+					sfail("lastresult(): index out of range")
+				}
+				off := 0
+				for i := 0; i < idx; i++ {
+					off += len(Layout(tt.At(i).Type()))
+				}
+				n := len(Layout(tt.At(idx).Type()))
+				return Val{T: tt.At(idx).Type(), L: v.L[off : off+n]}
+			}
+			return Val{T: c.T, L: v.L}
 		case "calls":
 			if args[0].Op != "str" {
 				sfail("calls(): string literal expected")
@@ -856,6 +964,7 @@ func (ex *Exec) evalCall(env *SpecEnv, e *SExpr) Val {
 			for i, l := range ls {
 				out.L[i] = UF("payload_"+heapKeyT(t)+"_"+sanitize(l.Path), l.Sort, v.S())
 			}
+			ex.typeFacts(env.st, out)
 			return out
 		}
 		// spec function?
@@ -1149,7 +1258,7 @@ func (ex *Exec) opaqueApp(ne *SpecEnv, sf *SpecFunc, flat []*Term) Val {
 	if !ex.opaqueDone[name] {
 		ex.opaqueDone[name] = true
 		// definitional axiom
-		de := &SpecEnv{ex: ex, pkgPath: sf.PkgPath, vars: map[string]Val{}, st: &State{cells: map[*Cell]Val{}, heap: map[string]*Term{}, guard: True, wm: Sym("alloc0", SInt)}, depth: ne.depth + 1}
+		de := &SpecEnv{ex: ex, pkgPath: sf.PkgPath, vars: map[string]Val{}, st: &State{cells: map[*Cell]Val{}, heap: map[string]*Term{}, guard: True, wm: newWMs()}, depth: ne.depth + 1}
 		var bvs []*Term
 		for _, p := range sf.Params {
 			t := ex.resolveType(de, p.Type)
